@@ -33,6 +33,77 @@ import progen  # noqa: E402
 from c12_export import Exporter, Unsupported  # noqa: E402
 
 
+# ============================================================================================ range-analysis taps
+# The model re-implements range_analysis.py by hand, so every call the REAL simplify makes to constant_bound /
+# IndexRangeEnvironment.add_loop_iter is recorded (wrappers installed in this process only, /repo is untouched)
+# and replayed in the model: a change in range_analysis.py shows up as a divergence even when simplify's output
+# happens not to change.
+import exo.rewrite.range_analysis as RA  # noqa: E402
+
+TAP = {"on": False, "calls": []}
+_real_constant_bound = RA.constant_bound
+_real_add_loop_iter = IndexRangeEnvironment.add_loop_iter
+
+
+def _flat_env(env):
+    out, seen = [], set()
+    maps = env.maps if isinstance(env, ChainMap) else [env]
+    for m in maps:  # innermost scope first = lookup order
+        for k, v in m.items():
+            if k not in seen:
+                seen.add(k)
+                out.append((k, v))
+    return out
+
+
+def _tap_constant_bound(expr, env):
+    r = _real_constant_bound(expr, env)
+    if TAP["on"] and isinstance(expr, LoopIR.expr) and len(TAP["calls"]) < 60:
+        TAP["calls"].append(("cbound", _flat_env(env), expr, r))
+    return r
+
+
+def _tap_add_loop_iter(self, sym, lo_expr, hi_expr):
+    before = _flat_env(self.env) if TAP["on"] else None
+    _real_add_loop_iter(self, sym, lo_expr, hi_expr)
+    if TAP["on"] and len(TAP["calls"]) < 60:
+        TAP["calls"].append(("loopiter", before, (sym, lo_expr, hi_expr), self.env[sym]))
+
+
+RA.constant_bound = _tap_constant_bound
+IndexRangeEnvironment.add_loop_iter = _tap_add_loop_iter
+
+
+def env_sexp(envl):
+    return "(%s)" % " ".join("(%s %d %s %s)" % (k.name(), k._id, "N" if lo is None else lo, "N" if hi is None else hi)
+                             for k, (lo, hi) in envl)
+
+
+def bound_sexp(r):
+    return "(%s %s)" % tuple("N" if v is None else v for v in r)
+
+
+def range_tap_cases(calls, add):
+    seen = set()
+    for kind, envl, what, res in calls:
+        ex = Exporter()
+        try:
+            if kind == "cbound":
+                job = "(cbound %s %s)" % (env_sexp(envl), ex.expr(what))
+                sample = "constant_bound(%s) under %s = %s" % (first_line(what), env_sexp(envl), res)
+            else:
+                sym, lo, hi = what
+                job = "(loopiter %s %s %d %s %s)" % (env_sexp(envl), sym.name(), sym._id, ex.expr(lo), ex.expr(hi))
+                sample = "add_loop_iter(%s, %s, %s) under %s = %s" % (sym, first_line(lo), first_line(hi), env_sexp(envl), res)
+        except Unsupported:
+            continue
+        if job in seen:
+            continue
+        seen.add(job)
+        add({"stream": "range:" + kind, "expect": bound_sexp(res), "sample": sample, "changed": res != (None, None),
+             "tags": [kind]}, job)
+
+
 # ============================================================================================ LoopIR construction
 class IrBuilder:
     """expression trees of c12_gen (nested tuples) -> LoopIR, with explicit control of Sym and SrcInfo identity"""
@@ -171,8 +242,14 @@ def run_proc_case(stream, before_ir, make_proc, meta, out, cap):
         rec.update(skip="export: %s" % e)
         return rec, None
     t0 = time.time()
+    TAP["calls"] = []
     try:
-        after = simplify(make_proc())
+        pr = make_proc()
+        TAP["on"] = True
+        try:
+            after = simplify(pr)
+        finally:
+            TAP["on"] = False
         after_ir = after._loopir_proc
         expect = ex.proc(after_ir)
     except Unsupported as e:
@@ -183,6 +260,8 @@ def run_proc_case(stream, before_ir, make_proc, meta, out, cap):
         expect = "crash"
         rec["exc"] = "%s: %s" % (type(e).__name__, str(e)[:200])
     rec["t_simplify"] = round(time.time() - t0, 4)
+    rec["range_calls"] = TAP["calls"]
+    TAP["calls"] = []
     rec["expect"] = expect
     rec["changed"] = expect != job_in
     rec["tags"] = tags_of(before_ir, after_ir)
@@ -255,7 +334,8 @@ def unit_cases(rng, n, jobs, recs, late=lambda: False):
         b = IrBuilder(rng, syms, rng.choice([1, 2, 4]))
         names = [k for k, _, _ in syms]
         ex = Exporter()
-        kind = rng.choice(["index_start", "index_start", "simp_e", "simp_e", "streq", "factkey"])
+        kind = rng.choice(["index_start", "index_start", "simp_e", "simp_e", "streq", "factkey", "cbound", "cbound",
+                           "loopiter"])
         rec = {"stream": "unit:" + kind}
         try:
             if kind == "index_start":
@@ -279,6 +359,47 @@ def unit_cases(rng, n, jobs, recs, late=lambda: False):
                     expect = "crash"
                     rec["exc"] = type(exn).__name__
                 rec["sample"] = "%s  |env %s|  ->  %s" % (first_line(e), " ".join(envs), expect if expect == "crash" else first_line(r))
+            elif kind in ("cbound", "loopiter"):
+                envmap, envs = {}, []
+                for k in names:
+                    if rng.random() < 0.9:
+                        lo = rng.choice([None, 0, 0, 0, 1, 2, 3, -2, 5])
+                        hi = None if rng.random() < 0.12 else (lo if lo is not None else 0) + rng.choice([0, 1, 2, 2, 3, 4, 7])
+                        envmap[b.syms[k][0]] = (lo, hi)
+                envs = env_sexp(list(envmap.items()))
+                fenv = object.__new__(IndexRangeEnvironment)
+                fenv.proc = None
+                fenv.env = ChainMap(dict(envmap))
+                if kind == "cbound":
+                    e = b.e(eg.expr(names, [], rng.choice([1, 1, 2, 3])))
+                    job = "(cbound %s %s)" % (envs, ex.expr(e))
+                    try:
+                        r = _real_constant_bound(e, fenv.env)
+                        expect = bound_sexp(r)
+                        rec["bf"] = bf_range(e, r, envmap, b)
+                    except Unsupported:
+                        raise
+                    except Exception as exn:
+                        expect = "crash"
+                        rec["exc"] = type(exn).__name__
+                    rec["sample"] = "constant_bound(%s) under %s = %s" % (first_line(e), envs, expect)
+                else:
+                    it = Sym("it")
+                    lo_e = b.e(eg.expr(names, [], rng.choice([0, 1, 1, 2])))
+                    hi_e = b.e(eg.expr(names, [], rng.choice([0, 1, 1, 2])))
+                    e = lo_e
+                    job = "(loopiter %s it %d %s %s)" % (envs, it._id, ex.expr(lo_e), ex.expr(hi_e))
+                    try:
+                        _real_add_loop_iter(fenv, it, lo_e, hi_e)
+                        r = fenv.env[it]
+                        expect = bound_sexp(r)
+                        rec["bf"] = bf_range(None, r, envmap, b, loop=(lo_e, hi_e))
+                    except Unsupported:
+                        raise
+                    except Exception as exn:
+                        expect = "crash"
+                        rec["exc"] = type(exn).__name__
+                    rec["sample"] = "add_loop_iter(it, %s, %s) under %s = %s" % (first_line(lo_e), first_line(hi_e), envs, expect)
             elif kind == "simp_e":
                 conds = [b.e(eg.cond(names, [], 0)) for _ in range(rng.choice([0, 1, 1, 2]))]
                 # make facts likely to apply: reuse a guard's lhs inside the expression
@@ -326,7 +447,9 @@ def unit_cases(rng, n, jobs, recs, late=lambda: False):
         except Unsupported as e:
             continue
         rec["expect"] = expect
-        if kind in ("index_start", "simp_e"):
+        if kind in ("cbound", "loopiter"):
+            rec["changed"] = expect not in ("(N N)", "crash")  # non-trivial: a bound was derived
+        elif kind in ("index_start", "simp_e"):
             rec["changed"] = expect != ex.expr(e)       # non-trivial: the real code rewrote the expression
         else:
             rec["changed"] = expect == "true"            # non-trivial: the two expressions are identified
@@ -348,6 +471,47 @@ def rename_tree(t, names, rng):
     if t[0] == "c" and rng.random() < 0.1:
         return ("c", t[1] + 1)
     return t
+
+
+def bf_range(e, r, envmap, b, loop=None):
+    """every value the expression (resp. the loop iterator) takes under the environment lies in the bound the REAL
+    range analysis returned"""
+    import itertools
+    ex = Exporter()
+    c = O.Compiler(ex)
+    args = ", ".join("v_%d" % sy._id for sy, _ in b.syms.values())
+    try:
+        if loop is None:
+            fs = [eval("lambda cfg, %s: %s" % (args, c.ce(e)))]
+        else:
+            fs = [eval("lambda cfg, %s: %s" % (args, c.ce(x))) for x in loop]
+    except Unsupported as exn:
+        return {"skip": str(exn)}
+    doms = []
+    for sy, ty in b.syms.values():
+        lo, hi = envmap.get(sy, (None, None))
+        lo_ = (1 if ty == T.size else -6) if lo is None else lo
+        hi_ = (lo_ + 9) if hi is None else hi
+        if lo is None and hi is not None:
+            lo_ = hi - 9
+        doms.append(range(lo_, hi_ + 1))
+    n = 0
+    for vals in itertools.product(*doms):
+        try:
+            vs = [f({}, *vals) for f in fs]
+        except ZeroDivisionError:
+            continue
+        cand = [vs[0]] if loop is None else range(vs[0], vs[1])
+        for v in cand:
+            n += 1
+            if (r[0] is not None and v < r[0]) or (r[1] is not None and v > r[1]):
+                what = first_line(e) if loop is None else "iterator of seq(%s, %s)" % (first_line(loop[0]), first_line(loop[1]))
+                return {"valuations": n, "violation": {
+                    "key": "simplify:range:%s in [%s, %s]" % (what, r[0], r[1]),
+                    "what": "range analysis bounds `%s` by [%s, %s] but it takes the value %r" % (what, r[0], r[1], v),
+                    "replay": {"expr": what, "env": {repr(k): v2 for k, v2 in envmap.items()}, "bound": list(r),
+                               "valuation": {repr(sy): x for (sy, _), x in zip(b.syms.values(), vals)}, "value": v}}}
+    return {"valuations": n}
 
 
 def bf_expr(before, after, envmap, conds, b):
@@ -454,6 +618,16 @@ def main():
     jobs, recs = JobSink(), Sink()
 
     def add(rec, job):
+        calls = rec.pop("range_calls", None)
+        if calls:
+            try:
+                _add(rec, job)
+            finally:
+                range_tap_cases(calls, _add)
+        else:
+            _add(rec, job)
+
+    def _add(rec, job):
         if job is None:
             rec["nojob"] = True
             recs.append(rec)
